@@ -44,6 +44,7 @@ type World struct {
 	SendBuf    int // default capacity of a stream direction in bytes
 	UDP        UDPFaults
 	OnNewConn  func(c *Conn) // called (under no lock) for every new node-side stream connection
+	OnNewUDP   func(c *UDPConn) // called for every UDP socket dialled by the node
 	NodeConns  []NodeConn    // node-side connections in the order they were made (dials, serial opens)
 }
 
@@ -125,6 +126,13 @@ func (a Addr) Network() string { return a.Net }
 func (a Addr) String() string  { return a.IP + ":" + strconv.Itoa(a.Port) }
 
 func rec(kind, s string, ints ...int64) { dsim.Record(kind, s, nil, ints...) }
+
+func nodeFlag(node bool) int64 {
+	if node {
+		return 1
+	}
+	return 0
+}
 
 // timeoutError mimics the error of an expired socket deadline.
 func timeoutError(op, network string) error {
@@ -280,6 +288,7 @@ func (c *Conn) Read(p []byte) (int, error) {
 	k := c.NReads
 	f := c.Faults
 	c.mu.Unlock()
+	rec("net", c.Name+" read-call", int64(c.ID), int64(k), 0, nodeFlag(c.NodeSide))
 	if f.ReadErrAt > 0 && k >= f.ReadErrAt {
 		dsim.Probe("fault:read-error")
 		rec("net", c.Name+" read-fault "+f.ReadErr.Error(), int64(c.ID))
@@ -351,7 +360,7 @@ func (c *Conn) Write(p []byte) (int, error) {
 	k := c.NWrites
 	f := c.Faults
 	c.mu.Unlock()
-	rec("net", c.Name+" write-call", int64(c.ID), int64(len(p)), int64(k))
+	rec("net", c.Name+" write-call", int64(c.ID), int64(len(p)), int64(k), nodeFlag(c.NodeSide))
 	if cb := c.OnWrite; cb != nil {
 		cb(p, k)
 	}
@@ -544,7 +553,7 @@ func (c *Conn) SetReadDeadline(t time.Time) error {
 	if !t.IsZero() {
 		d = int64(time.Until(t))
 	}
-	rec("net", c.Name+" set-read-deadline", int64(c.ID), d)
+	rec("net", c.Name+" set-read-deadline", int64(c.ID), d, 0, nodeFlag(c.NodeSide))
 	return nil
 }
 
@@ -559,7 +568,7 @@ func (c *Conn) SetWriteDeadline(t time.Time) error {
 	if !t.IsZero() {
 		d = int64(time.Until(t))
 	}
-	rec("net", c.Name+" set-write-deadline", int64(c.ID), d)
+	rec("net", c.Name+" set-write-deadline", int64(c.ID), d, 0, nodeFlag(c.NodeSide))
 	return nil
 }
 
@@ -710,6 +719,10 @@ func (w *World) dial(ctx context.Context, network, address string, node bool) (n
 	}
 	udp := len(network) >= 3 && network[:3] == "udp"
 	verdict := DialOK
+	if node {
+		rec("attempt", address, 0)
+		defer func() { rec("attempt-end", address, 0) }()
+	}
 	if node && w.DialHook != nil {
 		w.mu.Lock()
 		w.dialCount[address]++
@@ -730,10 +743,14 @@ func (w *World) dial(ctx context.Context, network, address string, node bool) (n
 		s.connected = true
 		s.remote = Addr{"udp", "127.0.0.1", port}
 		rec("net", s.name+" udp dial "+address, int64(s.id), int64(port))
+		uc := &UDPConn{s: s}
 		if node {
 			w.noteNodeConn(NodeConn{Addr: address, Kind: "udp", ID: s.id, Port: s.port})
+			if w.OnNewUDP != nil {
+				w.OnNewUDP(uc)
+			}
 		}
-		return &UDPConn{s: s}, nil
+		return uc, nil
 	}
 	switch verdict {
 	case DialRefuse:
@@ -886,6 +903,8 @@ func SerialOpen(device string, mode *serial.Mode) (serial.Port, error) {
 		rec("net", "serial open "+device+": no such device")
 		return nil, &serial.PortError{}
 	}
+	rec("attempt", device, 0)
+	defer func() { rec("attempt-end", device, 0) }()
 	s.mu.Lock()
 	s.Opens++
 	n := s.Opens
